@@ -115,9 +115,25 @@ pub fn judge_tx(tx: &tir::Tx, sig_where: &str, o: &mut Outcome, detail: &Value) 
     // (iii) leaving out a reported parameter is refused by name
     // (the argument map of a caller may carry keys the template does not use - a protocol-wide map: they must not
     // make up for the one that is missing)
-    for (p, with_extras) in params.keys().flat_map(|p| [(p, false), (p, true)]) {
+    // (nor must the withheld name in another spelling: either that spelling supplies the parameter - then a whole
+    // transaction comes out - or it does not, and the parameter is missing; what may not happen is that the guard
+    // takes it for supplied and the substitution does not)
+    for (p, mode) in params.keys().flat_map(|p| [(p, 0), (p, 1), (p, 2)]) {
+        let with_extras = mode == 1;
+        let other_spelling = mode == 2;
         let mut partial = args.clone();
-        partial.remove(p);
+        let withheld = partial.remove(p);
+        if other_spelling {
+            let up = p.to_uppercase();
+            let cap: String = p.chars().enumerate().map(|(i, c)| if i == 0 { c.to_ascii_uppercase() } else { c }).collect();
+            if up == *p {
+                continue;
+            }
+            if let Some(v) = withheld {
+                partial.insert(up, v.clone());
+                partial.insert(cap, v);
+            }
+        }
         if with_extras {
             partial.insert("zz_not_used_by_the_template".into(), tx3_tir::reduce::ArgValue::Int(1));
             partial.insert("aa_not_used_either".into(), tx3_tir::reduce::ArgValue::Bytes(vec![1, 2]));
@@ -132,6 +148,7 @@ pub fn judge_tx(tx: &tir::Tx, sig_where: &str, o: &mut Outcome, detail: &Value) 
                 ok = false;
                 viol(o, format!("missing-arg|wrong-name|{sig_where}"), format!("argument {p} withheld, error names {key}"));
             }
+            Ok(Ok(_)) if other_spelling => o.class("other-spelling-accepted-as-the-parameter"),
             Ok(other) => {
                 ok = false;
                 let kind = match other {
@@ -140,7 +157,7 @@ pub fn judge_tx(tx: &tir::Tx, sig_where: &str, o: &mut Outcome, detail: &Value) 
                 };
                 viol(
                     o,
-                    format!("missing-arg|not-refused{}|{sig_where}", if with_extras { "-with-unused-keys" } else { "" }),
+                    format!("missing-arg|not-refused{}|{sig_where}", if with_extras { "-with-unused-keys" } else if other_spelling { "-with-the-name-in-another-spelling" } else { "" }),
                     format!("argument {p} withheld but resolve_tx did not return MissingTxArg: {kind}"),
                 );
             }
@@ -256,7 +273,7 @@ impl Prop for C06 {
              parameter), placed in each of {} Tx fields. Language level: every tx of the corpus (examples + feature bases) and of the spelling generator (<= 1 deviation), also through parse_resolve_request with every held parameter supplied under the template's own spelling. Oracle: (i) every \
              ExpectValue / ExpectInput found by a generic walk of the serialised TIR is in find_params / find_queries; (ii) after apply_args (all \
              reported), apply_fees, apply_inputs (all reported) the walk finds no Expect* node, and none after reduce when reduce succeeds; (iii) \
-             resolve_tx with one reported parameter withheld returns MissingTxArg naming it. Non-trivial = the tree contains a probe and was judged; \
+             resolve_tx with one reported parameter withheld (also beside unused keys, and beside the same name in upper / capitalised spelling) returns MissingTxArg naming it. Non-trivial = the tree contains a probe and was judged; \
              distinct = distinct trees / programs.",
             tirgen::contexts().len(),
             tirgen::contexts().len().pow(2),
